@@ -1,3 +1,5 @@
+import IceTie.Lifecycle
+import IceTie.Options
 import IceTie.AgentDefaults
 import IceTie.AgentTick
 import IceProofs.AgentC04Run
@@ -535,5 +537,44 @@ example : IceGen.agentConfig_initWithDefaults_timing false 1000 true 0 true 0 tr
     = [IceModel.Eff.set "agent.disconnectedTimeout" (IceModel.Val.i 1000), IceModel.Eff.set "agent.disconnectedTimeoutExplicit" (IceModel.Val.b true),
        IceModel.Eff.set "agent.failedTimeout" (IceModel.Val.i 25000000000), IceModel.Eff.set "agent.keepaliveInterval" (IceModel.Val.i 2000000000),
        IceModel.Eff.set "agent.checkInterval" (IceModel.Val.i 200000000)] := by decide
+
+/-! ## Tie to the code (T, round 4): the timing OPTIONS of agent_options.go and `candidateBase.seen`, REGENERATED on every run
+(`IceGen.T_Options`, `IceGen.T_Lifecycle`) -/
+
+/-- `WithDisconnectedTimeout` / `WithFailedTimeout` / `WithKeepaliveInterval` / `WithCheckInterval`: refused on a constructed agent
+(nothing written), otherwise exactly one field is written (`WithDisconnectedTimeout` also marks the timeout explicit — what the lite
+default looks at); read through the field table `applyEff` they are the corresponding updates of the model's `Config` -/
+theorem C04_code_timing_options :
+    (∀ constructed t, IceGen.opt_WithDisconnectedTimeout constructed t
+      = IceTie.Options.guard constructed ([IceTie.Options.setI "a.disconnectedTimeout" t, IceTie.Options.setB "a.disconnectedTimeoutExplicit" true], "nil")) ∧
+    (∀ constructed t, IceGen.opt_WithFailedTimeout constructed t = IceTie.Options.guard constructed ([IceTie.Options.setI "a.failedTimeout" t], "nil")) ∧
+    (∀ constructed t, IceGen.opt_WithKeepaliveInterval constructed t = IceTie.Options.guard constructed ([IceTie.Options.setI "a.keepaliveInterval" t], "nil")) ∧
+    (∀ constructed t, IceGen.opt_WithCheckInterval constructed t = IceTie.Options.guard constructed ([IceTie.Options.setI "a.checkInterval" t], "nil")) ∧
+    (∀ (cfg : IceModel.AgentCore.Config) (t : Int64),
+      IceTie.Options.applyEffs cfg [IceTie.Options.setI "a.disconnectedTimeout" t, IceTie.Options.setB "a.disconnectedTimeoutExplicit" true]
+        = { cfg with disconnectedTimeout := t.toInt.toNat, disconnectedExplicit := true } ∧
+      IceTie.Options.applyEffs cfg [IceTie.Options.setI "a.failedTimeout" t] = { cfg with failedTimeout := t.toInt.toNat } ∧
+      IceTie.Options.applyEffs cfg [IceTie.Options.setI "a.keepaliveInterval" t] = { cfg with keepaliveInterval := t.toInt.toNat } ∧
+      IceTie.Options.applyEffs cfg [IceTie.Options.setI "a.checkInterval" t] = { cfg with checkInterval := t.toInt.toNat }) :=
+  ⟨IceTie.Options.WithDisconnectedTimeout_tie, IceTie.Options.WithFailedTimeout_tie, IceTie.Options.WithKeepaliveInterval_tie, IceTie.Options.WithCheckInterval_tie, IceTie.Options.timing_cfg⟩
+
+example : IceGen.opt_WithFailedTimeout true 5 = ([], "ErrAgentOptionNotUpdatable") ∧
+    IceGen.opt_WithKeepaliveInterval false 0 = ([IceModel.Eff.set "a.keepaliveInterval" (IceModel.Val.i 0)], "nil") ∧
+    (IceTie.Options.applyEffs {} (IceGen.opt_WithDisconnectedTimeout false 7000000000).1).disconnectedTimeout = 7000000000 ∧
+    (IceTie.Options.applyEffs {} (IceGen.opt_WithDisconnectedTimeout false 7000000000).1).disconnectedExplicit = true := by decide
+
+/-- `candidateBase.seen`: inbound traffic refreshes only the last-received time (whose age `validateSelectedPair` measures),
+outbound only the last-sent time; the model's `seenRemoteRecv` / `seenLocalSent` write the same single field -/
+theorem C04_code_seen :
+    (∀ outbound, IceGen.candidateBase_seen outbound
+      = if outbound then [IceTie.Lifecycle.c "setLastSent(now)"] else [IceTie.Lifecycle.c "setLastReceived(now)"]) ∧
+    (∀ (a : Agent) (uid now : Nat),
+      (a.seenLocalSent uid now).remotes = a.remotes ∧
+      (a.seenLocalSent uid now).locals = updCand a.locals uid (fun c => { c with lastSent := some now }) ∧
+      (a.seenRemoteRecv uid now).locals = a.locals ∧
+      (a.seenRemoteRecv uid now).remotes = updCand a.remotes uid (fun c => { c with lastRecv := some now })) :=
+  ⟨IceTie.Lifecycle.seen_tie, IceTie.Lifecycle.seen_model⟩
+
+example : IceGen.candidateBase_seen false = [IceTie.Lifecycle.c "setLastReceived(now)"] := by decide
 
 end IceProps.C04
